@@ -216,6 +216,8 @@ class Renderer:
             t = t["elem"]
         while t["k"] == "ptr":
             stars += "*"
+            if "selfname" in t:      # pointer to the structure being defined (forward reference to itself)
+                return t["selfname"], f"{stars}{fname}{suffix}"
             t = t["target"]
         self.ensure(t)
         return type_name(t), f"{stars}{fname}{suffix}"
@@ -225,7 +227,7 @@ class Renderer:
         if k == "arr":
             return self.ensure(t["elem"])
         if k == "ptr":
-            return self.ensure(t["target"])
+            return None if "selfname" in t else self.ensure(t["target"])
         if k == "enum":
             if t["name"] in self.done:
                 return
